@@ -102,6 +102,62 @@ func buildSnapshotStream(w *W, idx int, seed int64) *snapStream {
 	return &snapStream{data: buf.Bytes(), stateEnd: stateEnd, wd: h.wd, h: h, final: dumpState(h.wd.P, sv), sv: sv, tailIDs: ntail}
 }
 
+// buildBigStream: a snapshot whose state part spans several s2 frames (> 1 MiB of incompressible
+// strings over three blocks) - a truncation can then fall between two frames INSIDE the state part.
+func buildBigStream(w *W, idx int, seed int64) *snapStream {
+	rng := rand.New(rand.NewSource(seed))
+	h := &history{w: w, idx: idx, rng: rng, stats: map[string]int64{}, lastID: map[uint32]uint64{}, nCols: map[Kind]int{}, caseID: fmt.Sprintf("E5:bigsnap%d", idx),
+		cfg: e1Cfg{Prop: "C13", Txn: baseTxn(), Oracles: oracleSet()}}
+	h.g = newGen(seed+1, "edge")
+	h.wd = newWorld(1000, false, false)
+	h.addColumn(KString)
+	h.addColumn(KInt64)
+	h.addColumn(KEnum)
+	n := 40000 + rng.Intn(5000)
+	h.wd.P.Query(func(txn *column.Txn) error {
+		for i := 0; i < n; i++ {
+			txn.Insert(func(r column.Row) error {
+				r.SetString("s", h.g.randBytes(40+rng.Intn(30)))
+				r.SetInt64("i64", int64(i))
+				if i%3 == 0 {
+					r.SetEnum("e", "red")
+				}
+				return nil
+			})
+		}
+		return nil
+	})
+	h.wd.P.Query(func(txn *column.Txn) error { // some holes
+		for i := 0; i < 300; i++ {
+			txn.DeleteAt(uint32(rng.Intn(n)))
+		}
+		return nil
+	})
+	var buf bytes.Buffer
+	stateEnd := -1
+	ntail := 0
+	mark := func(point string, c *column.Collection, chunk uint32) {
+		if c != h.wd.P {
+			return
+		}
+		if point == "snapshot.beforeBlock" && chunk == 2 { // one small commit in the tail, on an already written block
+			h.wd.P.QueryAt(5, func(r column.Row) error { r.SetInt64("i64", -5); return nil })
+			ntail++
+		}
+		if point == "snapshot.beforeCopy" {
+			stateEnd = buf.Len()
+		}
+	}
+	column.VerifHook.Store(&mark)
+	err := h.wd.P.Snapshot(&buf)
+	column.VerifHook.Store(nil)
+	if err != nil || stateEnd < 0 {
+		panic(fmt.Sprintf("E5: big snapshot failed: %v", err))
+	}
+	sv := h.wd.M.view(nil)
+	return &snapStream{data: buf.Bytes(), stateEnd: stateEnd, wd: h.wd, h: h, final: dumpState(h.wd.P, sv), sv: sv, tailIDs: ntail}
+}
+
 // txnQuiet executes one generated transaction on the primary and the model, no oracles.
 func (h *history) txnQuiet() {
 	spec := h.g.genTxn(h.wd.M, h.liveRows(), h.cfg.Txn)
@@ -230,7 +286,14 @@ func truncSnapshotCase(w *W, idx int) {
 	caseID := fmt.Sprintf("E5:snapshot-stream:%d", idx)
 	w.Begin(idx, caseID)
 	seed := w.Seed*15485863 + int64(idx)*179424673
-	s := buildSnapshotStream(w, idx, seed)
+	var s *snapStream
+	big := idx%16 == 15
+	if big {
+		s = buildBigStream(w, idx, seed)
+		w.Stat("snapshot_streams_with_multi_frame_state", 1)
+	} else {
+		s = buildSnapshotStream(w, idx, seed)
+	}
 	defer s.wd.Close()
 	rng := rand.New(rand.NewSource(seed + 5))
 	state, tail := s.data[:s.stateEnd], s.data[s.stateEnd:]
@@ -299,7 +362,11 @@ func truncSnapshotCase(w *W, idx int) {
 	bounds := frameBoundaries(s.data)
 	bounds = append(bounds, s.stateEnd)
 	every := w.Thorough() && len(s.data) <= 120000
-	offs := truncOffsets(w, len(s.data), bounds, rng, every, 400)
+	sample := 400
+	if big {
+		sample = 60 // a restore of 40 000 rows costs tens of milliseconds
+	}
+	offs := truncOffsets(w, len(s.data), bounds, rng, every, sample)
 	okCount, errCount := 0, 0
 	for _, off := range offs {
 		o := s.restoreFrom(s.data[:off])
